@@ -751,6 +751,262 @@ def argument_roles(ck, prog):
     r.note('%d (function, callee, parameter) bindings compared with the reference' % n)
 
 
+# ---------------------------------------------------------------------------
+# further reference-profile rules: constants stored / returned, switch fall-through, small arithmetic offsets
+
+def stored_constants_profile(f):
+    """{'return' | 'store:<field or *param>': {named constant: count}}"""
+    from .cfg import written_lvalues, is_ref
+    out = {}
+
+    def named(e):
+        x = e
+        while isinstance(x, dict) and x.get('k') in ('paren', 'cast') and isinstance(x.get('e'), dict):
+            x = x['e']
+        if isinstance(x, dict) and is_int(x) and x.get('name') and x['name'] not in ('TRUE', 'FALSE', 'NULL') \
+                and not x['name'].startswith('_dbus_assert'):
+            return x['name']
+        return None
+    for b, i, ev in f.events():
+        if ev['ev'] == 'return' and ev.get('e') is not None:
+            nm = named(ev['e'])
+            if nm:
+                d = out.setdefault('return', {})
+                d[nm] = d.get(nm, 0) + 1
+        for lhs, how, rhs in written_lvalues(ev):
+            if how != '=' or rhs is None:
+                continue
+            nm = named(rhs)
+            if not nm:
+                continue
+            if lhs.get('k') == 'member':
+                slot = 'store:%s.%s' % (lhs.get('rec'), lhs.get('field'))
+            elif lhs.get('k') == 'un' and lhs.get('op') == '*' and is_ref(lhs.get('e')) and lhs['e'].get('kind') == 'param':
+                slot = 'store:*%s' % lhs['e']['name']
+            else:
+                continue
+            d = out.setdefault(slot, {})
+            d[nm] = d.get(nm, 0) + 1
+    return out
+
+
+def fallthrough_profile(f):
+    """sorted list of 'a->b': a case block that has statements of its own and runs into the next case label"""
+    out = []
+    for bid, blk in f.blocks.items():
+        cs = blk.get('case')
+        if not cs:
+            continue
+        # follow the chain of blocks of this case until a block with a case label or a jump away
+        seen = set()
+        cur = blk
+        has_events = False
+        while True:
+            if cur['id'] in seen:
+                break
+            seen.add(cur['id'])
+            if any(ev['ev'] in ('assign', 'call', 'incdec', 'decl') for ev in cur['events']):
+                has_events = True
+            t = cur.get('term')
+            if t is not None or len(cur['succs']) != 1 or any(ev['ev'] == 'return' for ev in cur['events']):
+                break
+            nxt = f.blocks.get(cur['succs'][0])
+            if nxt is None:
+                break
+            if nxt.get('case'):
+                if has_events:
+                    out.append('%s->%s' % (cs[0], nxt['case'][0]))
+                break
+            cur = nxt
+    return sorted(out)
+
+
+def offsets_profile(f):
+    """{'+1': n, '-1': n, '+2': n, ...}: additions / subtractions of a small literal (1..8) inside index, length
+    and size computations (anything but the loop-step forms `x += 1` / `x++`)."""
+    out = {}
+    tops = []
+    for b, i, ev in f.events():
+        tops.append(ev.get('init') if ev['ev'] == 'decl' else ev.get('e'))
+    for blk in f.blocks.values():
+        t = blk.get('term')
+        if t and t.get('cond') is not None:
+            tops.append(t['cond'])
+    seen = set()
+    for top in tops:
+        if not isinstance(top, dict):
+            continue
+        for x in walk(top):
+            if x.get('k') == 'bin' and x.get('op') in ('+', '-') and id(x) not in seen:
+                seen.add(id(x))
+                for side in ('l', 'r'):
+                    y = x[side]
+                    if is_int(y) and not y.get('name') and 1 <= abs(y['v']) <= 8:
+                        if side == 'l' and x['op'] == '-':
+                            continue
+                        k = '%s%d' % (x['op'], y['v'])
+                        out[k] = out.get(k, 0) + 1
+    return out
+
+
+def _swap(ref, cur):
+    """(gone, new) when the two multisets have the same size and differ"""
+    gone = {k: v - cur.get(k, 0) for k, v in ref.items() if v > cur.get(k, 0)}
+    new = {k: v - ref.get(k, 0) for k, v in cur.items() if v > ref.get(k, 0)}
+    if gone and new and sum(gone.values()) == sum(new.values()):
+        return gone, new
+    return None
+
+
+def more_profiles(ck, prog):
+    pid = ck.pid
+    files = anchor_files(pid)
+    path = os.path.join(VERIF, 'engine', 'baseline_profiles.json')
+    if not os.path.exists(path):
+        return
+    with open(path) as fh:
+        base = json.load(fh).get(getattr(ck, 'variant', 'A'), {})
+    rr = ck.rule(pid + '.R', 'named constants a function returns or stores keep their identity in this property\'s '
+                 'files: per return value / field / out-parameter, no constant is replaced by another one of the same '
+                 'count (reference profile)', 'TAB',
+                 breaks='the right branch reports the wrong reply code / validity reason / state: a neighbouring '
+                        'enumerator in exactly one of several branches', floor=0)
+    rf = ck.rule(pid + '.F', 'switch statements keep their fall-through structure in this property\'s files: a case '
+                 'with statements of its own runs into the next label exactly where it does in the reference tree',
+                 'TAB', breaks='a missing `break` executes the next case as well; an added one skips shared code',
+                 floor=0)
+    ro = ck.rule(pid + '.O', 'small additive offsets keep their value in this property\'s files: the `+ 1` / `- 1` / '
+                 '`+ 4` ... of index, length and size computations of a function are those of the reference tree (a '
+                 'replacement, not an addition or removal, is reported)', 'TAB',
+                 breaks='an off-by-one in a length or position: the terminating NUL is not counted, a loop stops one '
+                        'element early, a cursor lands one byte off', floor=0)
+    nr = nf = no = 0
+    for f in prog.funcs.values():
+        if f.file not in files or not prog.is_production(f):
+            continue
+        ref = base.get(f.file, {}).get(f.name)
+        if not ref:
+            continue
+        cur = stored_constants_profile(f)
+        for slot, consts in cur.items():
+            if slot not in ref.get('R', {}):
+                continue
+            nr += 1
+            sw = _swap(ref['R'][slot], consts)
+            key = '%s:%s' % (f.name, slot)
+            if sw:
+                rr.violation(key, f.name, f.file, f.line,
+                             '%s now uses %s for %s where the reference tree uses %s' % (
+                                 f.name, ', '.join(sorted(sw[1])), slot.replace('store:', ''), ', '.join(sorted(sw[0]))))
+            else:
+                rr.ok(key)
+        if 'F' in ref:
+            nf += 1
+            cf = fallthrough_profile(f)
+            if cf != ref['F'] and any(b.get('case') for b in f.blocks.values()):
+                extra = sorted(set(cf) - set(ref['F']))
+                missing = sorted(set(ref['F']) - set(cf))
+                rf.violation('%s:fall-through' % f.name, f.name, f.file, f.line,
+                             'switch fall-through changed: %s' % '; '.join(
+                                 (['case %s now runs into case %s' % tuple(x.split('->')) for x in extra]) +
+                                 (['case %s no longer runs into case %s' % tuple(x.split('->')) for x in missing])))
+            else:
+                rf.ok('%s:fall-through' % f.name)
+        if ref.get('O'):
+            no += 1
+            sw = _swap(ref['O'], offsets_profile(f))
+            key = '%s:offsets' % f.name
+            if sw:
+                ro.violation(key, f.name, f.file, f.line,
+                             '%s now computes with %s where the reference tree has %s' % (
+                                 f.name, ', '.join('%s (x%d)' % kv for kv in sorted(sw[1].items())),
+                                 ', '.join('%s (x%d)' % kv for kv in sorted(sw[0].items()))))
+            else:
+                ro.ok(key)
+    if nf == 0:
+        rf.skip('no switch statement in %s' % ', '.join(sorted(files)))
+    if nr == 0:
+        rr.skip('no named constant is returned or stored in %s' % ', '.join(sorted(files)))
+    if no == 0:
+        ro.skip('no small additive offset in %s' % ', '.join(sorted(files)))
+
+
+# ---------------------------------------------------------------------------
+# a list walk ends at the head of the list it started from
+
+def list_walks(ck, prog):
+    from .cfg import estr, is_call, is_member, is_ref, written_lvalues
+    pid = ck.pid
+    files = anchor_files(pid)
+    r = ck.rule(pid + '.L', 'list walks in this property\'s files end at the head of the list they started from: where '
+                'a link variable obtained with _dbus_list_get_first_link / _last_link (&H) is stepped with '
+                '_dbus_list_get_next_link / _prev_link, the step is given the same list H', 'TS',
+                breaks='the lists are circular: stepping with another list\'s head never finds the end (the bus spins '
+                       'for ever in the loop) or stops early', floor=0)
+
+    def head_of(e):
+        while e is not None and e.get('k') in ('paren', 'cast'):
+            e = e.get('e')
+        if e is not None and e.get('k') == 'un' and e['op'] == '&':
+            return estr(e['e'])
+        return '*' + estr(e) if e is not None else None
+
+    def head_in_step(e):
+        while e is not None and e.get('k') in ('paren', 'cast'):
+            e = e.get('e')
+        if e is not None and e.get('k') == 'un' and e['op'] == '*':
+            x = e['e']
+            if x.get('k') == 'un' and x['op'] == '&':
+                return estr(x['e'])
+            return '*' + estr(x)
+        return None
+    n = 0
+    for f in prog.funcs.values():
+        if f.file not in files or not prog.is_production(f):
+            continue
+        heads = {}
+        for b, i, ev in f.events():
+            for lhs, how, rhs in written_lvalues(ev):
+                if is_ref(lhs) and rhs is not None and \
+                        is_call(rhs, ('_dbus_list_get_first_link', '_dbus_list_get_last_link')) and rhs['args']:
+                    heads.setdefault(lhs.get('id'), set()).add(head_of(rhs['args'][0]))
+        if not heads:
+            continue
+        tops = []
+        for b, i, ev in f.events():
+            tops.append((ev.get('init') if ev['ev'] == 'decl' else ev.get('e'), ev['line']))
+        for blk in f.blocks.values():
+            t = blk.get('term')
+            if t and t.get('cond') is not None:
+                tops.append((t['cond'], t['line']))
+        seen = set()
+        for top, line in tops:
+            if not isinstance(top, dict):
+                continue
+            for x in walk(top):
+                if x.get('k') != 'bin' or x.get('op') != '==':
+                    continue
+                for a, b2 in ((x['l'], x['r']), (x['r'], x['l'])):
+                    if is_member(a, None, 'DBusList') and a['field'] in ('next', 'prev') and is_ref(a['base']) \
+                            and a['base'].get('id') in heads:
+                        h = head_in_step(b2)
+                        if h is None:
+                            continue
+                        key = '%s:%s over %s' % (f.name, a['base']['name'], h)
+                        if key in seen:
+                            continue
+                        seen.add(key)
+                        n += 1
+                        if h in heads[a['base']['id']]:
+                            r.ok(key)
+                        else:
+                            r.violation(key, f.name, f.file, line,
+                                        '%s walks the list %s with the link %s but steps it against the head of %s' % (
+                                            f.name, ' / '.join(sorted(heads[a['base']['id']])), a['base']['name'], h))
+    if n == 0:
+        r.skip('no list walk in %s' % ', '.join(sorted(files)))
+
+
 def run(ck, prog):
     error_discipline(ck, prog)
     onebit_stores(ck, prog)
@@ -760,3 +1016,5 @@ def run(ck, prog):
     allocation_results(ck, prog)
     widened_sentinels(ck, prog)
     argument_roles(ck, prog)
+    more_profiles(ck, prog)
+    list_walks(ck, prog)
